@@ -7,6 +7,7 @@ import itertools
 
 from sa.h import *
 from sa.index import Module
+from sa.cfg import reaching_defs
 from sa.tables import ConstEval, _Return
 
 EXPLANATION = (
@@ -672,6 +673,14 @@ class _Raised(Exception):
         self.exc = exc
 
 
+class _LoopBreak(Exception):
+    pass
+
+
+class _LoopContinue(Exception):
+    pass
+
+
 class CapParseEval(ConstEval):
     """The engine's bounded AST interpreter, extended just far enough to run uri.from_string on a concrete cap
     string: try/except/raise, isinstance, and tokens for the package's classes.  `K.init_from_string(..)` / `K(..)` of
@@ -723,7 +732,45 @@ class CapParseEval(ConstEval):
             if st.value is not None:
                 self.assign(st.target, self.expr(st.value, env), env)
             return
+        if isinstance(st, ast.Break):
+            self.tick()
+            raise _LoopBreak()
+        if isinstance(st, ast.Continue):
+            self.tick()
+            raise _LoopContinue()
+        if isinstance(st, (ast.For, ast.While)):
+            # loops with break / continue / else (the row lookup of a table-driven parse)
+            self.tick()
+            if isinstance(st, ast.For):
+                items = iter(list(self.expr(st.iter, env)))
+            broke = False
+            while True:
+                self.tick()
+                if isinstance(st, ast.For):
+                    try:
+                        x = next(items)
+                    except StopIteration:
+                        break
+                    self.assign(st.target, x, env)
+                elif not self.expr(st.test, env):
+                    break
+                try:
+                    self.block(st.body, env)
+                except _LoopContinue:
+                    continue
+                except _LoopBreak:
+                    broke = True
+                    break
+            if not broke:
+                self.block(st.orelse, env)
+            return
         return ConstEval.stmt(self, st, env)
+
+    def call(self, fn, args, kwargs):
+        try:
+            return ConstEval.call(self, fn, args, kwargs)
+        except (_LoopBreak, _LoopContinue):
+            raise NotConstant("break / continue outside a loop")
 
     def _is_exc_class(self, ci):
         return any(c.name.endswith("Error") or c.name.endswith("Exception") for c in ci.mro()) or \
@@ -842,6 +889,16 @@ class CapParseEval(ConstEval):
             f = e.func
             if any(isinstance(a, ast.Starred) for a in e.args) or any(k.arg is None for k in e.keywords):
                 raise NotConstant("*/** arguments")
+            if isinstance(f, ast.Name) and f.id == "next" and f.id not in env and not e.keywords \
+                    and len(e.args) in (1, 2) and isinstance(e.args[0], ast.GeneratorExp):
+                # next(<generator expression>[, default]): the first element (the elements are side-effect free
+                # constant expressions, so producing all of them first changes nothing)
+                got = list(self.expr(e.args[0], env))
+                if got:
+                    return got[0]
+                if len(e.args) == 2:
+                    return self.expr(e.args[1], env)
+                raise _Raised(("exc", "StopIteration", None))
             args = [self.expr(a, env) for a in e.args]
             kwargs = {k.arg: self.expr(k.value, env) for k in e.keywords}
             if isinstance(f, ast.Name) and f.id == "isinstance" and f.id not in env and len(args) == 2:
@@ -1427,6 +1484,69 @@ def run(ctx: Context):
     with ctx.rule("C19.4", "R3", "every key stored into / deleted from a children dict in dirnode.py is normalize(..) "
                   "(or self.name bound to normalize(..) in __init__)", expected=6) as r:
         funcs = [f for f in idx.funcs.values() if f.module is dmod]
+
+        NORM_CALL = r"^normalize\([^()]*(\([^()]*\)[^()]*)*\)$"
+
+        def ctor_arg_normalised(ci, init, v):
+            """`self.attr = v` in ci.__init__ where v is a constructor parameter that reaches the store unchanged:
+            True iff the class is only ever constructed by direct calls (never passed around as a value, no
+            subclass, no *args / **kwargs) and every such call in the package hands in normalize(..)."""
+            if not isinstance(v, ast.Name) or v.id not in init.params:
+                return False
+            a = init.node.args
+            if a.vararg is not None or a.kwarg is not None or a.posonlyargs:
+                return False
+            names = [x.arg for x in a.args]
+            if not names or v.id not in names[1:] or ci.lookup("__init__") is not init:
+                return False
+            # the parameter is not rebound before (or after) the store
+            for x in func_own_nodes(init, into_lambda=True):
+                if isinstance(x, ast.Name) and x.id == v.id and not isinstance(x.ctx, ast.Load):
+                    return False
+            if any(isinstance(x, (ast.Global, ast.Nonlocal)) for x in func_own_nodes(init)) or init.nested:
+                return False
+            if idx.subclasses(ci) or "__new__" in ci.methods:
+                return False
+            cgx = get_callgraph(idx)
+            if cgx.refs_named(ci.name):
+                return False
+            sites = cgx.calls_named(ci.name)
+            if not sites:
+                return False
+            pos = names.index(v.id) - 1
+            for cs in sites:
+                c = cs.call
+                if any(isinstance(x, ast.Starred) for x in c.args) or any(kw.arg is None for kw in c.keywords):
+                    return False
+                av = arg(c, pos, v.id)
+                if av is None:
+                    return False
+                try:
+                    cn = node_of(cs.fn.cfg(), c)
+                    s2 = FlowNorm(cs.fn).norm(cn, av)
+                except Exception:
+                    return False
+                if re.match(NORM_CALL, s2):
+                    continue
+                # a local rebound to normalize(..) (also `namex = normalize(namex)`): every definition of the name
+                # that reaches the construction is such an assignment
+                if not isinstance(av, ast.Name):
+                    return False
+                try:
+                    cfg2 = cs.fn.cfg()
+                    rd = reaching_defs(cfg2).get(cn.id, {}).get(av.id)
+                    fn2 = FlowNorm(cs.fn)
+                    if not rd:
+                        return False
+                    for d in rd:
+                        dn = cfg2.nodes[d] if isinstance(d, int) and 0 <= d < len(cfg2.nodes) else None
+                        if dn is None or dn.id != d or dn.kind != "stmt" or not isinstance(dn.ast, ast.Assign) \
+                                or len(dn.ast.targets) != 1 or attr_path(dn.ast.targets[0]) != av.id \
+                                or not re.match(NORM_CALL, fn2.norm(dn, dn.ast.value)):
+                            return False
+                except Exception:
+                    return False
+            return True
         for f in funcs:
             conts = set()
             for c in calls_in_func(f):
@@ -1482,6 +1602,11 @@ def run(ctx: Context):
                                     vals.append((g, st.value))
                         ok = bool(vals) and len(vals) == len(sts) and all(
                             g.name == "__init__" and re.match(r"^normalize\(.+\)$", N(g).norm(v)) for (g, v) in vals)
+                        if not ok and vals and len(vals) == len(sts) and all(g.name == "__init__" for (g, _v) in vals):
+                            # the constructor stores its argument as it is: the name may equally be normalised by
+                            # the caller - at EVERY construction site of this modifier class in the package
+                            ok = all(re.match(r"^normalize\(.+\)$", N(g).norm(v)) or ctor_arg_normalised(f.cls, g, v)
+                                     for (g, v) in vals)
                         r.require(ok, f, f.loc(k), "%s.%s is used as a child name but is not bound to normalize(..) "
                                   "in the constructor" % (f.cls.name, attr))
                         continue
